@@ -176,8 +176,9 @@ def bounds_for(ctx):
         def gen():
             out = []
             for model, xt, gamma in itertools.product(MODELS, (1, 0), (0, None)):
-                sc = [comm_scen("c%d" % i, model, xt, gamma, s, bw, lat, n, n // 2)
-                      for i, (s, bw, lat) in enumerate(itertools.product(SIZES, BWS, LATS))]
+                grid = itertools.product(SIZES, BWS, LATS) if ctx.quick else \
+                    itertools.product(SIZES + [65536, 3e7], BWS + [1e6], LATS + [1e-4])
+                sc = [comm_scen("c%d" % i, model, xt, gamma, s, bw, lat, n, n // 2) for i, (s, bw, lat) in enumerate(grid)]
                 out += pack("n%d%s%s%s_" % (n, model, xt, "g0" if gamma == 0 else "gd"), net_cfg(model, xt, gamma), sc, 64)
             return out
         return gen
